@@ -20,13 +20,15 @@
 //	addpool <id> <net8hex>/<plen> <gw8hex> <dns8hex,…|-> <leaseSecs> <vlan> <class>   => ok d=<delta> | err …
 //	slow <dhcp-payload-hex>                  => q=<kind>:<mac>:<giaddr>:<cid|none>:<opt50|-> r=<reply-hex|none> sv=<type:yiaddr:54:51:1:3:6|-> L=<leases> C=<cid index> d=<delta>
 //	cleanup                                  => L=… C=… d=…                 one cleanupExpiredLeases pass
-//	tick <seconds>                           => ok                          virtual time passes
+//	tick <seconds> | tickms <ms>             => ok                          virtual time passes
+//	rmpool <id>                              => ok d=… | err d=-            PoolManager.RemovePool
+//	setdefault <id>                          => ok | err                    PoolManager.SetDefaultPool
 //	vlanadd <stag> <ctag> <poolid> <ip8hex> <expUnix>  => d=…               Loader.AddVLANSubscriber (API state)
 //	vlandel <stag> <ctag>                    => d=…
 //	run <hexframe> clk=<spec>                => as above; spec = <ns> | unix[+n|-n] (the slow path's clock, in s, as ns) | up<n> (n s since boot)
 //
 //	delta  = +<map>:<key>:<val>,-<map>:<key>,…  sorted by map then key, `-` if empty
-//	leases = <mac>:<ip>:<expUnix>:<cidhex|->,… sorted by MAC;   C = <cidhex>:<mac>:<ip>:<expUnix>,… sorted by circuit-id
+//	leases = <mac>:<ip>:<expUnix>:<cidhex|->:<ms of ExpiresAt>,… sorted by MAC;   C = <cidhex>:<mac>:<ip>:<expUnix>,… sorted by circuit-id
 package main
 
 import (
@@ -213,7 +215,7 @@ func (r *run) leases() string {
 		if len(l.CircuitID) > 0 {
 			cid = hex.EncodeToString(l.CircuitID)
 		}
-		ls = append(ls, fmt.Sprintf("%s:%s:%d:%s", hex.EncodeToString(l.MAC), ipHex(l.IP), l.ExpiresAt.Unix(), cid))
+		ls = append(ls, fmt.Sprintf("%s:%s:%d:%s:%d", hex.EncodeToString(l.MAC), ipHex(l.IP), l.ExpiresAt.Unix(), cid, l.ExpiresAt.Nanosecond()/1000000))
 	}
 	sort.Strings(ls)
 	var cs []string
@@ -480,6 +482,40 @@ func (r *run) Do(op string) string {
 				return "badop"
 			}
 			time.Sleep(time.Duration(n) * time.Second)
+			return "ok"
+		case "tickms":
+			if len(f) != 2 {
+				return "badop"
+			}
+			n, err := strconv.Atoi(f[1])
+			if err != nil || n < 0 {
+				return "badop"
+			}
+			time.Sleep(time.Duration(n) * time.Millisecond)
+			return "ok"
+		case "rmpool":
+			if len(f) != 2 {
+				return "badop"
+			}
+			id, err := strconv.ParseUint(f[1], 10, 32)
+			if err != nil {
+				return "badop"
+			}
+			if err := r.pm.RemovePool(uint32(id)); err != nil {
+				return "err d=" + r.sync()
+			}
+			return "ok d=" + r.sync()
+		case "setdefault":
+			if len(f) != 2 {
+				return "badop"
+			}
+			id, err := strconv.ParseUint(f[1], 10, 32)
+			if err != nil {
+				return "badop"
+			}
+			if err := r.pm.SetDefaultPool(uint32(id)); err != nil {
+				return "err"
+			}
 			return "ok"
 		case "vlanadd":
 			if len(f) != 6 {
